@@ -140,9 +140,10 @@ def _add_bound(bounds, lit):
     if mm:
         r = tuple(int(x) for x in mm.group(1).split("."))
         bounds.add((r + (0, 0, 0))[:3])
-        if len(r) <= 2:
-            r2 = (r + (0,))[:2]
-            bounds.add((r2[0], r2[1] + 1, 0))
+        # the derived bounds: X.(Y+1).0 of python_version > / <= X.Y, the upper ends of ~=V and of the wildcards V.*
+        r3 = (r + (0, 0))[:3] if len(r) < 3 else r
+        for i in range(min(len(r3), 3)):
+            bounds.add((tuple(r3[:i]) + (r3[i] + 1,) + (0, 0, 0))[:3])
 
 
 def env_class(texts, env) -> str:
